@@ -264,7 +264,7 @@ def check_jacobian(case):
 core.register("C15", [
     Facet("circuits", circuit_cases, check_circuit, n_quick=280,
           shards_quick=8, rule=RULE),
-    Facet("tensors", tensor_cases, check_tensor, n_quick=120,
+    Facet("tensors", tensor_cases, check_tensor, n_quick=800,
           shards_quick=4, rule="tensor diagrams with symbolic boxes, "
           "optionally inside a polynomial bubble; gradient and jacobian vs "
           "symbolic differentiation of the evaluation"),
